@@ -1,2 +1,209 @@
--- line-protocol driver stub (Wb); replaced when the model exists
-def main : IO Unit := IO.println "stub"
+import QbiceVerif.Model.WriteBehind
+
+/-!
+Line-protocol driver over the write-behind model (C10): trace validation.
+
+The harness emits the events it can observe on the real `WriteBehind` (plus the `take` events it
+infers from FIFO order); the driver replays them through `step` — an event that is not enabled is
+answered `not-enabled` — and fires the *unobservable* events (channel send/receive, loop exits,
+worker exits, after-commit steps) eagerly between observed ones, each through the same checked
+`step`.  Every state the driver goes through is therefore a state of a genuine model run.
+
+  new S                 start a case with S serializer workers            -> ok
+  create                WriteBehind::new_write_batch                      -> epoch N
+  submit E OPS          submit_write_batch of the batch created as E      -> ok
+  take W E              serializer W received batch E                     -> ok
+  ser W E OPS           serializer W filled its buffer with OPS (in order)-> ok
+  pop E                 commit worker consumed the buffer of batch E      -> pop N
+  more B                should_write_more() answered B (0/1)              -> ok
+  commit                WriteBatch::commit of the physical batch          -> commit EPOCHS OPS
+  dropbegin             drop(WriteBehind) starts                          -> ok
+  dropend               drop(WriteBehind) returned                        -> returned
+  end                   dump                                              -> store … applied=N chunks=…
+
+OPS: `-` or comma separated `space:col:key:sub=VAL` with VAL a number or `-` (delete).
+-/
+
+open QbiceVerif.WB
+
+def parseKey (s : String) : Option SKey :=
+  match s.splitOn ":" with
+  | [a, b, c, d] => do
+    let a ← a.toNat?
+    let b ← b.toNat?
+    let c ← c.toNat?
+    let d ← d.toNat?
+    some ⟨a, b, c, d⟩
+  | _ => none
+
+def parseOp (s : String) : Option WOp :=
+  match s.splitOn "=" with
+  | [k, v] => do
+    let k ← parseKey k
+    let v ← if v == "-" then some none else v.toNat?.map some
+    some ⟨k, v⟩
+  | _ => none
+
+def parseOps (s : String) : Option (List WOp) :=
+  if s == "-" then some [] else (s.splitOn ",").mapM parseOp
+
+def showKey (k : SKey) : String := s!"{k.space}:{k.col}:{k.key}:{k.sub}"
+
+def showOp (o : WOp) : String :=
+  showKey o.key ++ "=" ++ (match o.val with | some v => toString v | none => "-")
+
+def showOps (l : List WOp) : String := if l.isEmpty then "-" else ",".intercalate (l.map showOp)
+
+def showNats (l : List Nat) : String := if l.isEmpty then "-" else ";".intercalate (l.map toString)
+
+def keyLt (a b : SKey) : Bool :=
+  a.space < b.space || (a.space == b.space && (a.col < b.col || (a.col == b.col &&
+    (a.key < b.key || (a.key == b.key && a.sub < b.sub)))))
+
+def insertKey (k : SKey) : List SKey → List SKey
+  | [] => [k]
+  | x :: xs => if k == x then x :: xs else if keyLt k x then k :: x :: xs else x :: insertKey k xs
+
+/-- The unobservable events, tried in this order. -/
+def silentCandidates (s : State) : List Event :=
+  (List.range s.sers.length).map Event.serSend ++ [.cRecv, .cBreak, .cRecvClosed] ++
+    (List.range s.sers.length).map Event.serExit ++ [.cNotify, .cAssert, .aRecv, .aExit]
+
+/-- Fire unobservable events until none is enabled; `none` = out of fuel. -/
+def closure : Nat → State → Option State
+  | 0, _ => none
+  | fuel + 1, s =>
+    match (silentCandidates s).findSome? (fun ev => step s ev) with
+    | some s' => closure fuel s'
+    | none => some s
+
+structure Drv where
+  st : Option State := none
+  keys : List SKey := []
+  cases : Nat := 0
+  maxHeap : Nat := 0
+  heldCases : Nat := 0      -- cases in which the model's hold-back heap held >= 2 batches at once
+  curMax : Nat := 0
+
+def fuelFor (s : State) : Nat :=
+  200 + 40 * (s.submitted.length + s.sers.length)
+
+/-- Fire one observed event, then the silent closure. -/
+def fireObs (s : State) (ev : Event) : Except String State :=
+  match step s ev with
+  | none => .error "not-enabled"
+  | some s' =>
+    match closure (fuelFor s') s' with
+    | none => .error "out-of-fuel"
+    | some s'' => .ok s''
+
+def heldEpoch (s : State) (w : Nat) : Option (Nat × Bool) :=
+  match s.sers[w]? with
+  | some (.raw t) => some (t.epoch, false)
+  | some (.done t) => some (t.epoch, true)
+  | _ => none
+
+def handle (d : Drv) (line : String) : Drv × String :=
+  let toks := (line.trimAscii.toString.splitOn " ").filter (· ≠ "")
+  match toks with
+  | ["new", n] =>
+    match n.toNat? with
+    | some n =>
+      match closure 100 (init n) with
+      | some s => ({ d with st := some s, keys := [], cases := d.cases + 1, curMax := 0 }, "ok")
+      | none => (d, "out-of-fuel")
+    | none => (d, "bad-op")
+  | cmd :: args =>
+    match d.st with
+    | none => (d, "bad-op")
+    | some s =>
+      let run (ev : Event) (out : State → String) : Drv × String :=
+        match fireObs s ev with
+        | .ok s' => ({ d with st := some s' }, out s')
+        | .error e => (d, e)
+      match cmd, args with
+      | "create", [] => run .create (fun _ => s!"epoch {s.counter}")
+      | "submit", [e, ops] =>
+        match e.toNat?, parseOps ops with
+        | some e, some ops =>
+          let d' := { d with keys := ops.foldl (fun ks (o : WOp) => insertKey o.key ks) d.keys }
+          match fireObs s (.submit e ops) with
+          | .ok s' => ({ d' with st := some s' }, "ok")
+          | .error er => (d, er)
+        | _, _ => (d, "bad-op")
+      | "take", [w, e] =>
+        match w.toNat?, e.toNat? with
+        | some w, some e =>
+          match step s (.serTake w) with
+          | none => (d, "not-enabled")
+          | some s' =>
+            match heldEpoch s' w with
+            | some (e', _) =>
+              if e' == e then
+                match closure (fuelFor s') s' with
+                | some s'' => ({ d with st := some s'' }, "ok")
+                | none => (d, "out-of-fuel")
+              else (d, s!"mismatch took {e'}")
+            | none => (d, "mismatch")
+        | _, _ => (d, "bad-op")
+      | "ser", [w, e, ops] =>
+        match w.toNat?, e.toNat?, parseOps ops with
+        | some w, some e, some ops =>
+          match heldEpoch s w with
+          | some (e', false) =>
+            if e' == e then run (.serSerialise w ops) (fun _ => "ok") else (d, s!"mismatch holds {e'}")
+          | _ => (d, "not-enabled")
+        | _, _, _ => (d, "bad-op")
+      | "pop", [_e] =>
+        run .cPop (fun _ => s!"pop {s.expected}")
+      | "more", [b] =>
+        if b == "1" then run (.cDecide true) (fun _ => "ok")
+        else if b == "0" then run (.cDecide false) (fun _ => "ok")
+        else (d, "bad-op")
+      | "commit", [] =>
+        run .cCommit (fun _ =>
+          s!"commit {showNats (s.cur.map Task.epoch)} {showOps (s.cur.flatMap Task.buf)}")
+      | "dropbegin", [] =>
+        match step s .dSetFlag with
+        | none => (d, "not-enabled")
+        | some s1 => match fireObs s1 .dClose with
+          | .ok s2 => ({ d with st := some s2 }, "ok")
+          | .error e => (d, e)
+      | "dropend", [] =>
+        match fireObs s .dJoinSers with
+        | .error e => (d, s!"stuck joinSers {e}")
+        | .ok s1 => match fireObs s1 .dJoinCommit with
+          | .error e => ({ d with st := some s1 }, s!"stuck joinCommit {e}" ++ (if s1.crashed then " crashed" else ""))
+          | .ok s2 => match fireObs s2 .dJoinAfter with
+            | .error e => ({ d with st := some s2 }, s!"stuck joinAfter {e}")
+            | .ok s3 => ({ d with st := some s3 }, if s3.dpc == .returned then "returned" else "stuck")
+      | "end", [] =>
+        let kv := d.keys.filterMap (fun k => match s.store k with
+          | some v => some (showKey k ++ "=" ++ toString v)
+          | none => none)
+        let storeS := if kv.isEmpty then "-" else ",".intercalate kv
+        let chunks := if s.log.isEmpty then "-" else "+".intercalate (s.log.map (fun c => toString c.length))
+        (d, s!"store {storeS} applied={s.applied.length} chunks={chunks} crashed={if s.crashed then 1 else 0}")
+      | _, _ => (d, "bad-op")
+  | [] => (d, "bad-op")
+
+def track (d : Drv) : Drv :=
+  match d.st with
+  | none => d
+  | some s =>
+    let h := s.heap.length
+    let d := if h ≥ 2 && d.curMax < 2 then { d with heldCases := d.heldCases + 1 } else d
+    { d with curMax := max d.curMax h, maxHeap := max d.maxHeap h }
+
+partial def loop (h : IO.FS.Stream) (out : IO.FS.Stream) (d : Drv) : IO Drv := do
+  let line ← h.getLine
+  if line.isEmpty then return d
+  let (d', o) := handle d line
+  out.putStrLn o
+  loop h out (track d')
+
+def main : IO Unit := do
+  let stdin ← IO.getStdin
+  let stdout ← IO.getStdout
+  let d ← loop stdin stdout {}
+  IO.eprintln s!"cases={d.cases} max_model_heap={d.maxHeap} cases_with_model_heap_ge2={d.heldCases}"
